@@ -194,6 +194,83 @@ pub fn build_constants() -> Vec<(&'static str, Vec<usize>)> {
     ]
 }
 
+/// Values of the crate's constants, of its chain-count table and of its length formulas AS
+/// COMPILED.  The translator of the verification reads them from here, so that it does not depend
+/// on how a constant is spelled in the source text.
+pub fn model_constants() -> Vec<(&'static str, Vec<u64>)> {
+    use crate::constants::winternitz_chain::{iter_len, ITER_I, ITER_J, ITER_K, ITER_PREV, ITER_Q};
+    use crate::constants::*;
+    let bytes = |b: &[u8]| -> Vec<u64> { b.iter().map(|x| *x as u64).collect() };
+    let mut out: Vec<(&'static str, Vec<u64>)> = std::vec![
+        ("ILEN", std::vec![ILEN as u64]),
+        ("MAX_SEED_LEN", std::vec![MAX_SEED_LEN as u64]),
+        ("MAX_HASH_SIZE", std::vec![MAX_HASH_SIZE as u64]),
+        ("MAX_HASH_BLOCK_SIZE", std::vec![MAX_HASH_BLOCK_SIZE as u64]),
+        ("D_PBLC", bytes(&D_PBLC)),
+        ("D_MESG", bytes(&D_MESG)),
+        ("D_LEAF", bytes(&D_LEAF)),
+        ("D_INTR", bytes(&D_INTR)),
+        ("TOPSEED_SEED", std::vec![TOPSEED_SEED as u64]),
+        ("TOPSEED_LEN", std::vec![TOPSEED_LEN as u64]),
+        ("TOPSEED_D", std::vec![TOPSEED_D as u64]),
+        ("TOPSEED_WHICH", std::vec![TOPSEED_WHICH as u64]),
+        ("D_TOPSEED", std::vec![D_TOPSEED as u64]),
+        ("PRNG_I", std::vec![PRNG_I as u64]),
+        ("PRNG_Q", std::vec![PRNG_Q as u64]),
+        ("PRNG_J", std::vec![PRNG_J as u64]),
+        ("PRNG_FF", std::vec![PRNG_FF as u64]),
+        ("PRNG_SEED", std::vec![PRNG_SEED as u64]),
+        ("PRNG_LEN", std::vec![prng_len(0) as u64, prng_len(16) as u64, prng_len(32) as u64]),
+        ("SEED_CHILD_SEED", std::vec![SEED_CHILD_SEED as u64]),
+        ("SEED_SIGNATURE_RANDOMIZER_SEED", std::vec![SEED_SIGNATURE_RANDOMIZER_SEED as u64]),
+        ("HSS_COMPRESSED_USED_LEAFS_SIZE", std::vec![HSS_COMPRESSED_USED_LEAFS_SIZE as u64]),
+        ("REF_IMPL_MAX_ALLOWED_HSS_LEVELS", std::vec![REF_IMPL_MAX_ALLOWED_HSS_LEVELS as u64]),
+        ("REF_IMPL_MAX_PRIVATE_KEY_SIZE", std::vec![REF_IMPL_MAX_PRIVATE_KEY_SIZE as u64]),
+        ("MIN_SUBTREE", std::vec![MIN_SUBTREE as u64]),
+        ("DAUX_D", std::vec![DAUX_D as u64]),
+        ("DAUX_PREFIX_LEN", std::vec![DAUX_PREFIX_LEN as u64]),
+        ("D_DAUX", std::vec![D_DAUX as u64]),
+        ("ITER_I", std::vec![ITER_I as u64]),
+        ("ITER_Q", std::vec![ITER_Q as u64]),
+        ("ITER_K", std::vec![ITER_K as u64]),
+        ("ITER_J", std::vec![ITER_J as u64]),
+        ("ITER_PREV", std::vec![ITER_PREV as u64]),
+        ("ITER_LEN", std::vec![iter_len(0) as u64, iter_len(16) as u64, iter_len(32) as u64]),
+    ];
+    // get_num_winternitz_chains on its whole domain: (w, n, chains)
+    for w in [1usize, 2, 4, 8] {
+        for n in [16usize, 24, 32] {
+            out.push(("NUM_CHAINS", std::vec![w as u64, n as u64, get_num_winternitz_chains(w, n) as u64]));
+        }
+    }
+    // the length formulas on a grid: (n, chains, height, lmots sig, lms pk, lms sig, signed pk)
+    for n in [16usize, 24, 32] {
+        for p in [18usize, 34, 67, 136, 265] {
+            for h in [2usize, 5, 10, 25] {
+                out.push((
+                    "LENGTHS",
+                    std::vec![
+                        n as u64,
+                        p as u64,
+                        h as u64,
+                        lmots_signature_length(n, p) as u64,
+                        lms_public_key_length(n) as u64,
+                        lms_signature_length(n, p, h) as u64,
+                        hss_signed_public_key_length(n, p, h) as u64,
+                    ],
+                ));
+            }
+        }
+    }
+    for (name, value) in crate::hss::aux::verif_constants() {
+        out.push((name, std::vec![value]));
+    }
+    for (name, value) in crate::hss::reference_impl_private_key::verif_constants() {
+        out.push((name, std::vec![value]));
+    }
+    out
+}
+
 fn assert_zeroize_on_drop<T: ZeroizeOnDrop>() {}
 
 /// For every secret-bearing type: an instance filled with non-zero secret bytes is zeroized;
